@@ -35,11 +35,31 @@ def regression():
     ]
 
 
+def overlapping():
+    """definitions whose spellings OVERLAP (one input matches two variants): the property quantifies over every field-less
+    enum, so the phf parser must still agree with the plain one (declaration order decides)"""
+    out = []
+    sp = ["ab", "Ab", "aB", "AB"]
+    for x in sp:
+        for y in sp:
+            for a in (False, True):
+                for b in (False, True):
+                    va = Variant("First", "unit", [], [ser(x)] + ([aci(True, explicit=False)] if a else []))
+                    vb = Variant("Second", "unit", [], [ser(y)] + ([aci(True, explicit=True)] if b else []))
+                    out.append(Item("E", [va, vb]))
+    for x, y, z in (("ab", "AB", "aB"), ("Ab", "ab", "ab"), ("x", "X", "x")):
+        for mask in range(8):
+            vs = [Variant(n, "unit", [], [ser(l), ser(l + "2")] + ([aci(True, explicit=False)] if mask >> i & 1 else []))
+                  for i, (n, l) in enumerate((("P", x), ("Q", y), ("R", z)))]
+            out.append(Item("E", vs + [Variant("Other", "tuple", [Field("String")], [DEFAULT])]))
+    return out
+
+
 def build_corpus(tier, rng):
     c = Corpus(ID)
     thorough = tier == "thorough"
     PLAIN.clear()
-    cands = [("regression", it) for it in regression()]
+    cands = [("regression", it) for it in regression()] + [("overlap", it) for it in overlapping()]
     for it in c01.systematic(rng):
         for v in it.variants:
             if not v.has("default"):
@@ -51,7 +71,10 @@ def build_corpus(tier, rng):
     infos = G.classify(ID, [it for _, it in cands])
     rejected = 0
     for (fam, it), info in zip(cands, infos):
-        if not c01.admit(it, info):
+        if fam == "overlap":
+            if info is None:
+                continue
+        elif not c01.admit(it, info):
             rejected += 1
             continue
         k = c.add_def(it, family=fam, derives=["EnumString"], info=info, twin=None)
